@@ -1,7 +1,175 @@
+import MythVerif.Model.PthProg
+import MythVerif.Model.MutexStaticInit
 import Driver.Util
-/-! `drv_pth`: stub, to be filled in -/
+/-! `drv_pth` (C16):
+
+* `drv_pth eval`  — program descriptions (lines, each program terminated by a line `end`) on stdin;
+  for each the result lines of `MythVerif.PthProg.Flat.eval` followed by `end`;
+* `drv_pth tree`  — one fragment term per line in s-expression syntax (`r<int>` | `a<c>:<k>` |
+  `( s P P )` | `( f P P )`, blank-separated tokens); prints `T <result line of the PROVED evaluator
+  PthProg.eval>`, then the description text `PthProg.toFlat` of the term, then `end`;
+* `drv_pth sinit` — trace acceptor: replays a schedule-controller trace of
+  harness/progs/pth_sinit.c on the static-initialiser model `MythVerif.SInit`.  The program
+  encodes the point id of the MYTH_VP_SINIT_* points (which harness/schedctl.h cannot name) into
+  the value: `v' = (pt - 179) * 10^10 + (v + 1)` (values below 10^10 belong to other unnamed points).  Mutex-body events (`MX_*`) of a thread on a
+  registered object must find that thread's handler returned (`pc = body`). -/
 namespace Driver.Pth
-def run (_args : List String) : IO UInt32 := do
-  IO.eprintln "drv_pth: not implemented"
-  return 2
+open MythVerif MythVerif.PthProg
+
+/-- parser of the s-expression syntax the generator uses for fragment terms -/
+partial def parseProg : List String → Option (Prog × List String)
+  | [] => none
+  | "(" :: "s" :: rest => do
+      let (a, r1) ← parseProg rest
+      let (b, r2) ← parseProg r1
+      match r2 with
+      | ")" :: r3 => some (.seq a b, r3)
+      | _ => none
+  | "(" :: "f" :: rest => do
+      let (a, r1) ← parseProg rest
+      let (b, r2) ← parseProg r1
+      match r2 with
+      | ")" :: r3 => some (.fork a b, r3)
+      | _ => none
+  | tok :: rest =>
+      if tok.startsWith "r" then (tok.drop 1).toString.toInt?.map (fun v => (.ret v, rest))
+      else if tok.startsWith "a" then
+        match (tok.drop 1).toString.splitOn ":" with
+        | [c, k] => do some (.add (← c.toNat?) (← k.toInt?), rest)
+        | _ => none
+      else none
+
+def runEval : IO UInt32 := do
+  let stdin ← IO.getStdin
+  let _ ← Driver.forLines stdin ([] : List String) fun acc line => do
+    let l := line.trimAscii.toString
+    if l == "end" then
+      for r in Flat.eval acc.reverse do IO.println r
+      IO.println "end"
+      pure []
+    else pure (l :: acc)
+  return 0
+
+def runTree : IO UInt32 := do
+  let stdin ← IO.getStdin
+  let _ ← Driver.forLines stdin () fun _ line => do
+    match parseProg (Driver.words line) with
+    | some (p, []) =>
+      IO.println ("T " ++ evalLine p)
+      for l in toFlat p do IO.println l
+      IO.println "end"
+    | _ => IO.println "E PARSE"; IO.println "end"
+  return 0
+
+/-! ### static-initialiser trace acceptor -/
+open MythVerif.SInit
+
+structure Obj where
+  name : String
+  st : St
+  tids : List Nat := []
+  entered : Nat := 0
+
+structure Acc where
+  objs : List Obj := []
+  line : Nat := 0
+  accepted : Nat := 0
+  err : Option String := none
+  verdict : Bool := false
+
+def showPc : PC → String
+  | .idle => "idle" | .rd v => s!"rd({v})" | .won a q s m => s!"won({a},{q},{s},{m})" | .fenced => "fenced"
+  | .spin => "spin" | .chk => "chk" | .body => "body"
+
+def applyLbls (st : St) : List Lbl → Option St
+  | [] => some st
+  | l :: ls => match step st l with
+    | some st' => applyLbls st' ls
+    | none => none
+
+/-- labels of one SINIT event of thread `t` (kind = pt - 180, `v` = decoded value) -/
+def toLbls (st : St) (kind : Nat) (t : Nat) (v : Int) : Option (List Lbl) :=
+  let pre : List Lbl := if st.pc t = .body then [.leave t] else []
+  match kind with
+  | 0 => some (pre ++ [.read t v.toNat])
+  | 1 => if v == -1 then some [.skipCas t] else some [.cas t (v == 1)]
+  | 2 => some [.copyWord t .attr, .copyWord t .queue, .copyWord t .state, .copyWord t .magic, .fence t]
+  | 3 => some [.publish t]
+  | 4 => some [.spinRead t mIni]
+  | 5 => some [.spinRead t v.toNat, .assertRead t v.toNat]
+  | _ => none
+
+def stepObj (acc : Acc) (line : String) (oname : String) (cur : Option Nat) (ls : St → Nat → Option (List Lbl))
+    (extra : St → Bool) : Acc :=
+  match acc.objs.find? (·.name == oname) with
+  | none => acc
+  | some o =>
+    match cur with
+    | none => { acc with err := some s!"MISMATCH line {acc.line}: cannot attribute `{line.trimAscii.toString}` to a thread" }
+    | some t =>
+      match ls o.st t with
+      | none => acc
+      | some lbls =>
+        match applyLbls o.st lbls with
+        | some st' =>
+          if !extra st' then
+            { acc with err := some s!"MISMATCH line {acc.line}: value observed in `{line.trimAscii.toString}` differs from the model (state word {st'.mstate})" }
+          else
+          let o' : Obj := { o with st := st', tids := if o.tids.contains t then o.tids else t :: o.tids,
+                                   entered := o.entered + (lbls.filter entersBody).length }
+          { acc with objs := acc.objs.map (fun p => if p.name == oname then o' else p),
+                     accepted := acc.accepted + lbls.length }
+        | none =>
+          { acc with err := some s!"MISMATCH line {acc.line}: model cannot do `{line.trimAscii.toString}`: magic={o.st.magic} convs={o.st.convs} pc[{t}]={showPc (o.st.pc t)}" }
+
+def big : Int := 10000000000
+
+def feed (acc : Acc) (line : String) : Acc :=
+  if acc.err.isSome then acc else
+  let acc := { acc with line := acc.line + 1 }
+  match Driver.words line with
+  | ["obj", name, "sinit"] => { acc with objs := { name := name, st := SInit.init 0 0 true 0 } :: acc.objs }
+  | ["verdict", _] => { acc with verdict := true }
+  | _ =>
+  match Driver.parseEv line with
+  | none => acc
+  | some e =>
+    if e.pt == "PT?" || e.pt == "SPIN_PT?" then
+      let k := (e.v / big).toNat
+      let v := e.v % big - 1
+      if k == 0 || k > 6 then acc else
+      let kind := k - 1
+      stepObj acc line e.a e.cur (fun st t => toLbls st kind t v)
+        (fun st' => if kind == 2 then v == 0 && st'.fresh else true)
+    else if e.pt.startsWith "MX_" then
+      stepObj acc line e.a e.cur (fun st t => some [.bodyStep t st.mstate st.qEmpty]) (fun _ => true)
+    else acc
+
+def finalCheck (acc : Acc) : Option String :=
+  if acc.verdict then none else
+  acc.objs.findSome? fun o =>
+    match o.tids.find? (fun t => o.st.pc t != .idle && o.st.pc t != .body) with
+    | some t => some s!"MISMATCH at end of trace: thread {t} is still inside the handler on {o.name} (pc={showPc (o.st.pc t)})"
+    | none =>
+      if !o.tids.isEmpty && (o.st.convs != 1 || o.st.magic != mNo || !o.st.pubFresh) then
+        some s!"MISMATCH at end of trace: object {o.name} was used but convs={o.st.convs} magic={o.st.magic}"
+      else none
+
+def runSinit : IO UInt32 := do
+  let stdin ← IO.getStdin
+  let acc ← Driver.forLines stdin ({} : Acc) fun a line => pure (feed a line)
+  match acc.err with
+  | some e => IO.println e; return 0
+  | none =>
+    match finalCheck acc with
+    | some e => IO.println e; return 0
+    | none => IO.println s!"accepted {acc.accepted}"; return 0
+
+def run (args : List String) : IO UInt32 :=
+  match args with
+  | ["eval"] => runEval
+  | ["tree"] => runTree
+  | ["sinit"] => runSinit
+  | _ => do IO.eprintln "usage: drv_pth eval|tree|sinit"; return 2
+
 end Driver.Pth
